@@ -80,7 +80,7 @@ partial def loop (h : IO.FS.Stream) (out : IO.FS.Stream) (cache : VCache) : IO U
   if line.isEmpty then return ()
   let t := line.trimAscii.toString
   let toks := (t.splitOn " ").filter (· ≠ "")
-  if ["verify", "vroundtrip", "proofdec", "chals"].contains (toks.headD "") then
+  if ["verify", "vroundtrip", "proofdec", "chals", "vkscalars"].contains (toks.headD "") then
     let (ans, cache) := verifyAnswer cache toks
     out.putStrLn ans
     loop h out cache
